@@ -347,6 +347,16 @@ fn run(cmd: &str, args: &[String], seed: u64, rep: &mut Report) {
             };
             c07x::replay(&ctx, &read_ndjson(arg(&args, "--in").unwrap()), seed, arg_u64(&args, "--reps", 50) as usize, &mut rep);
         }
+        "exchange-trace" => {
+            let ctx = exchange::Ctx {
+                layouts: layout::LayoutSet::load(arg(&args, "--layouts").unwrap()),
+                templates: template::Templates::load(arg(&args, "--templates").unwrap()),
+            };
+            let mut trace = Vec::new();
+            exchange::trace_random(&ctx, seed, arg_u64(&args, "--runs", 2000) as usize, &mut trace, &mut rep);
+            rep.extra.insert("events".into(), json!(trace.len()));
+            write_ndjson(arg(&args, "--out-trace").unwrap(), &trace);
+        }
         "valve-trace" => {
             let ctx = valve::Ctx {
                 layouts: layout::LayoutSet::load(arg(&args, "--layouts").unwrap()),
